@@ -15,6 +15,7 @@ import json
 import logging
 import os
 import random
+import signal
 import struct
 import subprocess
 import sys
@@ -881,12 +882,25 @@ def run_event_unit(unit):
 ERRNOS_QUICK = [1, 2, 3, 11, 12, 13, 16, 17, 22, 28, 38, 90, 93, 95, 97, 105, 132, 133]
 
 
+class OpHangs(BaseException):
+    pass
+
+
+def _op_hangs(*_):
+    raise OpHangs()
+
+
 def reply_ops():
     sa = dict(api='create_sa', **sel_base({}), tunnel=TUNNELS[0], mode=1, lifetime=300, spi=SPIS[1], alg=ALGS[5])
     sa6 = dict(api='create_sa', **sel_base({'ssel': NETS[6, 's'][64]}), tunnel=TUNNELS[2], mode=0, lifetime=-1,
                spi=SPIS[2], alg=ALGS[14])
     pol = dict(api='create_policy', **sel_base({}), tunnel=TUNNELS[0], mode=1, ipsec_proto=50, direction=1, index=9)
-    return [sa, sa6, pol, dict(api='delete_sa', daddr='192.168.0.2', proto=50, spi=SPIS[1]), dict(api='flush_sas'),
+    # addresses whose first octets read as a small number when the echoed request is walked as if it were attributes
+    ten = {'ssel': '10.0.9.0/24', 'dsel': '10.0.8.0/24'}
+    sa10 = dict(api='create_sa', **sel_base(ten), tunnel=TUNNELS[1], mode=1, lifetime=300, spi=SPIS[3], alg=ALGS[5])
+    pol10 = dict(api='create_policy', **sel_base(ten), tunnel=TUNNELS[1], mode=1, ipsec_proto=50, direction=1, index=9)
+    return [sa, sa6, pol, sa10, pol10, dict(api='delete_sa', daddr='10.0.0.2', proto=50, spi=SPIS[2]),
+            dict(api='delete_sa', daddr='192.168.0.2', proto=50, spi=SPIS[1]), dict(api='flush_sas'),
             dict(api='flush_policies'),
             dict(api='create_policies', **sel_base({}), tunnel=TUNNELS[0], mode=1, ipsec_proto=50, index=1, entries=1),
             dict(api='send_recv')]
@@ -984,12 +998,18 @@ def run_reply_unit(unit):
                 res['digests'].add(hashlib.sha1(frame).digest()[:8])
             del handler.records[:]
             outcome = 'ok'
+            signal.signal(signal.SIGVTALRM, _op_hangs)
+            signal.setitimer(signal.ITIMER_VIRTUAL, 2.0)     # a reply is read in microseconds; 2 s of CPU is a hang
             try:
                 call_op(op)
             except netlink.NetlinkError:
                 outcome = 'NetlinkError'
+            except OpHangs:
+                outcome = 'hangs'
             except Exception as ex:   # noqa
                 outcome = 'exception:' + type(ex).__name__
+            finally:
+                signal.setitimer(signal.ITIMER_VIRTUAL, 0)
             warned = any(lv >= logging.WARNING for lv in handler.records)
             if errno == 0:
                 good = outcome == 'ok'
